@@ -147,6 +147,13 @@ def run(ctx):
             g = bnp.Genome.from_file(path)
             seq = g.read_sequence()
             results = [("[]", lambda: seq[g.get_intervals(table, stranded=True)])]
+            if ivs:
+                # the same intervals read from a BED6 file by the genome (columns parsed lazily from text)
+                bedpath = ctx.path("iv.bed")
+                with open(bedpath, "w") as f:
+                    for i, (n, a, b, st) in enumerate(ivs):
+                        f.write("%s\t%d\t%d\ti%d\t0\t%s\n" % (n, a, b, i, st))
+                results.append(("[read_intervals(file)]", lambda: seq[g.read_intervals(bedpath, stranded=True)]))
         else:
             from bionumpy.genomic_data.genomic_sequence import GenomicSequence
             g = bnp.Genome.from_dict({n: len(sq) for n, sq in chroms})
